@@ -1,4 +1,5 @@
 import Bgpfu.Model.Readers
+import Bgpfu.Model.Hello
 import Bgpfu.Drive.Proto
 /-! Line protocol for XML event lists and the `xml` op family.
 
@@ -164,6 +165,95 @@ def specReply (k : ReplyKind) (doc : List Tok) (outcome : String) : String :=
 where
   splitListSemi (s : String) : List String := if s == "." then [] else s.splitOn ";"
 
+/-! ### hello -/
+
+def parseUriEntry (s : String) : Option (String × Option UriParts) :=
+  match s.splitOn ":" with
+  | [k, "!"] => (unhexStr k).map (·, none)
+  | [k, v] =>
+    match v.splitOn "/" with
+    | [sc, au, pa, qu, fr] => do
+      let k ← unhexStr k
+      let sc ← unhexStr sc
+      let au ← parseOptStr au
+      let pa ← unhexStr pa
+      let qu ← parseOptStr qu
+      let fr ← parseOptStr fr
+      pure (k, some { scheme := sc, authority := au, path := pa, query := qu, fragment := fr })
+    | _ => none
+  | _ => none
+
+def parseOracle (s : String) : Option UriOracle :=
+  if s == "." then some (fun _ => none) else do
+    let es ← mapM? parseUriEntry (s.splitOn ";")
+    pure fun q => (es.find? (·.1 == q)).bind (·.2)
+
+def capUri : Capability → String
+  | .base10 => "urn:ietf:params:netconf:base:1.0"
+  | .base11 => "urn:ietf:params:netconf:base:1.1"
+  | .writableRunning => "urn:ietf:params:netconf:capability:writable-running:1.0"
+  | .candidate => "urn:ietf:params:netconf:capability:candidate:1.0"
+  | .confirmedCommit10 => "urn:ietf:params:netconf:capability:confirmed-commit:1.0"
+  | .confirmedCommit11 => "urn:ietf:params:netconf:capability:confirmed-commit:1.1"
+  | .rollbackOnError => "urn:ietf:params:netconf:capability:rollback-on-error:1.0"
+  | .validate10 => "urn:ietf:params:netconf:capability:validate:1.0"
+  | .validate11 => "urn:ietf:params:netconf:capability:validate:1.1"
+  | .startup => "urn:ietf:params:netconf:capability:startup:1.0"
+  | .url schemes => "urn:ietf:params:netconf:capability:url:1.0?scheme=" ++ ",".intercalate schemes
+  | .xpath => "urn:ietf:params:netconf:capability:xpath:1.0"
+  | .junos => "http://xml.juniper.net/netconf/junos/1.0"
+  | .unknown u => u
+
+def insertSorted (s : String) : List String → List String
+  | [] => [s]
+  | x :: xs => if s == x then x :: xs else if s < x then s :: x :: xs else x :: insertSorted s xs
+
+def sortDedup (l : List String) : List String := l.foldl (fun acc s => insertSorted s acc) []
+
+def showContext : Except Err Context → String
+  | .error _ => "err"
+  | .ok c =>
+    let v := match c.version with | .v10 => "1.0" | .v11 => "1.1"
+    let caps := sortDedup (c.serverCaps.map capUri)
+    let capsS := if caps.isEmpty then "." else ",".intercalate (caps.map hexStr)
+    s!"ok sid={c.sid} ver={v} caps={capsS}"
+
+def allDigits (s : String) : Bool := !s.isEmpty && s.toList.all fun c => '0' ≤ c && c ≤ '9'
+
+/-- **C12 specification** on an observed establishment outcome.
+`shape`/`uris`: the hello is structurally a hello and all capability URIs are URIs; `sid`: the raw
+session-id text; `bases`: base versions the server advertised; `adv11`: whether the client's own
+hello (as found on the wire) advertises :base:1.1. Only clear-cut session-id texts are judged
+(all-digit strings); padded / signed ones are C13's business. -/
+def specHello (shape uris : Bool) (sid : Option String) (bases : List String) (adv11 : Bool) (outcome : String) : String :=
+  let established := outcome.startsWith "ok|"
+  let common10 := bases.contains "10"
+  let common11 := adv11 && bases.contains "11"
+  let wantVer := if common11 then "1.1" else "1.0"
+  let sidClear := match sid with | none => true | some s => allDigits s || s.isEmpty || s == "abc" || s == "-1"
+  let sidValid := match sid with
+    | some s => allDigits s && (match s.toNat? with | some n => 0 < n && n < 2 ^ 32 | none => false)
+    | none => false
+  if outcome != "err" && !established then "violation bad-observation"
+  else if !sidClear then
+    -- still: an established session must be usable
+    (if established && common11 then "violation v11-unusable" else "ok")
+  else
+    let want := shape && uris && sidValid && (common10 || common11)
+    if established && !want then "violation established-invalid-hello"
+    else if !established && want then "violation rejected-valid-hello"
+    else if !established then "ok"
+    else
+      let fields := outcome.splitOn "|"
+      let verOk := fields.contains s!"ver={wantVer}"
+      let sidOk := match sid with | some s => fields.contains s!"sid={s.toNat?.getD 0}" | none => false
+      if !verOk then "violation wrong-version"
+      else if !sidOk then "violation wrong-session-id"
+      -- RFC 6242 §4.1: both advertised :base:1.1 ⇒ chunked framing required, but only
+      -- end-of-message framing exists
+      else if common11 then "violation v11-unusable"
+      else "ok"
+
 def drive : List String → Option String
   | ["reply", c, k, evs] => do
     let c ← parseRCfg c
@@ -175,6 +265,19 @@ def drive : List String → Option String
     let k ← parseKind k
     let evs ← parseEvs evs
     pure (showOutcomeDbg (readMessage c k evs))
+  | ["hello", c, adv, oracle, evs] => do
+    let c ← parseRCfg c
+    let o ← parseOracle oracle
+    let evs ← parseEvs evs
+    pure (showContext (establish c (adv == "1") o evs))
+  | ["spec-hello", descr, adv, outcome] => do
+    let kv := (descr.splitOn "|").map fun f => match f.splitOn "=" with | [k, v] => (k, v) | _ => (f, "")
+    let get := fun k => (kv.find? (·.1 == k)).map (·.2)
+    let shape ← get "shape"
+    let uris ← get "uris"
+    let sid ← (get "sid").bind parseOptStr
+    let bases ← get "bases"
+    pure (specHello (shape == "1") (uris == "1") sid (splitList bases) (adv == "adv11=1") outcome)
   | ["spec-reply", k, doc, outcome] => do
     let k ← parseKind k
     let doc ← parseDoc doc
